@@ -30,6 +30,9 @@ def gen_case(rng, ctx):
         start = None
     for r, t in zip(rows, gen.gen_timestamps(rng, n, rng.choice(gen.TS_MODES), step, start)):
         r["ts"] = t
+    if rng.random() < 0.3:
+        for r in rows:           # timestamps handed over as ISO strings: parsed as the same naive wall-clock time in every zone
+            r["iso"] = True
     tf, tfs = gen.gen_timeframe(rng, step)
     init, chunks = gen.gen_chunks(rng, rows)
     ops = [("append", ch) for ch in chunks]
